@@ -848,52 +848,40 @@ theorem selectScope_bounds (Oz : Cols) (hne : Oz.filter (fun c => isBoundKey c.1
     rw [he, hb] at this
     cases this
 
-/-- `CsvReader.__init__` succeeds on the writer's header and finds every column where the writer put it -/
-theorem prSetup_header
-    (hn : (prHeader C rs).Nodup)
-    (hA : ∀ t ∈ C.titles (rs.map (·.er)), t ∈ C.keys)
-    (hdisj : ∀ k ∈ C.keys, k ∉ fixedTitles ++ bbKeys rs ++ (objKeys rs).flatMap objTitles)
-    (hbb : ∀ k ∈ bbKeys rs, BBKey k) (hbne : bbKeys rs ≠ [])
-    (hobj : ∀ o ∈ objKeys rs, ObjName o) (hone : objKeys rs ≠ []) :
-    prSetup C.keys (prHeader C rs).zipIdx = some (expReader C rs) := by
-  -- names
-  generalize hAdef : C.titles (rs.map (·.er)) = A at *
-  generalize hBdef : bbKeys rs = B at *
-  generalize hKdef : objKeys rs = ks at *
-  have hBsorted : B.Pairwise (· < ·) := hBdef ▸ sorted_sortedSet _
-  have hKsorted : ks.Pairwise (· < ·) := hKdef ▸ sorted_sortedSet _
-  unfold prHeader at hn ⊢
-  rw [hAdef, hBdef, hKdef] at hn ⊢
-  unfold expReader
-  simp only [hAdef, hBdef, hKdef]
-  have hfilt := filter_bound_titles ks hobj
-  have hmemO : ∀ t ∈ ks.flatMap objTitles, ∃ o ∈ ks, t ∈ objTitles o := fun t ht => List.mem_flatMap.mp ht
-  generalize hOdef : ks.flatMap objTitles = O at *
+/-- the common first half of both readers' `__init__` on a header `A ++ fixed ++ B ++ O` -/
+theorem setupCommon_header (keys A B O : List Str)
+    (hn : (A ++ fixedTitles ++ B ++ O).Nodup) (hA : ∀ t ∈ A, t ∈ keys)
+    (hdisj : ∀ k ∈ keys, k ∉ fixedTitles ++ B ++ O)
+    (hbb : ∀ k ∈ B, BBKey k) (hbne : B ≠ []) (hBsorted : B.Pairwise (· < ·))
+    (hObins : ∀ t ∈ O, ((sBinsLB ++ ['.']).isPrefixOf t = false) ∧ t ≠ sBinsLB) :
+    setupCommon keys (A ++ fixedTitles ++ B ++ O).zipIdx =
+      some ⟨A.zipIdx, A.length + 2, A.length + 3, A.length + 1, A.length, B.zipIdx (A.length + 4),
+        O.zipIdx (A.length + 4 + B.length)⟩ := by
   -- disjointness facts from the absence of duplicate titles
   have hn1 := List.nodup_append.mp hn
   have hn2 := List.nodup_append.mp hn1.1
   have hFB : ∀ f ∈ fixedTitles, f ∉ B := fun f hf hb => hn2.2.2 f (by simp [hf]) f hb rfl
   have hFO : ∀ f ∈ fixedTitles, f ∉ O := fun f hf ho => hn1.2.2 f (by simp [hf]) f ho rfl
   have hBO : ∀ b ∈ B, b ∉ O := fun b hb ho => hn1.2.2 b (by simp [hb]) b ho rfl
-  have hkF : ∀ f ∈ fixedTitles, f ∉ C.keys := fun f hf hk => hdisj f hk (by simp [hf])
-  have hkB : ∀ b ∈ B, b ∉ C.keys := fun b hb hk => hdisj b hk (by simp [hb])
-  have hkO : ∀ t ∈ O, t ∉ C.keys := fun t ht hk => hdisj t hk (by simp [ht])
+  have hkF : ∀ f ∈ fixedTitles, f ∉ keys := fun f hf hk => hdisj f hk (by simp [hf])
+  have hkB : ∀ b ∈ B, b ∉ keys := fun b hb hk => hdisj b hk (by simp [hb])
+  have hkO : ∀ t ∈ O, t ∉ keys := fun t ht hk => hdisj t hk (by simp [ht])
   -- the dictionary, part by part
   have hz : (A ++ fixedTitles ++ B ++ O).zipIdx =
       A.zipIdx ++ fixedTitles.zipIdx A.length ++ B.zipIdx (A.length + 4) ++ O.zipIdx (A.length + 4 + B.length) := by
     simp [List.zipIdx_append, fixedTitles, Nat.add_assoc]
-  have cont : ∀ (l : List Str) (n : Nat), (∀ x ∈ l, x ∈ C.keys) →
-      (l.zipIdx n).filter (fun c => C.keys.contains c.1) = l.zipIdx n ∧
-      (l.zipIdx n).filter (fun c => !C.keys.contains c.1) = [] := by
+  have cont : ∀ (l : List Str) (n : Nat), (∀ x ∈ l, x ∈ keys) →
+      (l.zipIdx n).filter (fun c => keys.contains c.1) = l.zipIdx n ∧
+      (l.zipIdx n).filter (fun c => !keys.contains c.1) = [] := by
     intro l n h
-    exact ⟨filter_zipIdx_all l n (fun x => C.keys.contains x) (fun x hx => List.contains_iff_mem.mpr (h x hx)),
-      filter_zipIdx_none l n (fun x => !C.keys.contains x) (fun x hx => by simp [h x hx])⟩
-  have ncont : ∀ (l : List Str) (n : Nat), (∀ x ∈ l, x ∉ C.keys) →
-      (l.zipIdx n).filter (fun c => C.keys.contains c.1) = [] ∧
-      (l.zipIdx n).filter (fun c => !C.keys.contains c.1) = l.zipIdx n := by
+    exact ⟨filter_zipIdx_all l n (fun x => keys.contains x) (fun x hx => List.contains_iff_mem.mpr (h x hx)),
+      filter_zipIdx_none l n (fun x => !keys.contains x) (fun x hx => by simp [h x hx])⟩
+  have ncont : ∀ (l : List Str) (n : Nat), (∀ x ∈ l, x ∉ keys) →
+      (l.zipIdx n).filter (fun c => keys.contains c.1) = [] ∧
+      (l.zipIdx n).filter (fun c => !keys.contains c.1) = l.zipIdx n := by
     intro l n h
-    exact ⟨filter_zipIdx_none l n (fun x => C.keys.contains x) (fun x hx => by simpa using h x hx),
-      filter_zipIdx_all l n (fun x => !C.keys.contains x) (fun x hx => by simpa using h x hx)⟩
+    exact ⟨filter_zipIdx_none l n (fun x => keys.contains x) (fun x hx => by simpa using h x hx),
+      filter_zipIdx_all l n (fun x => !keys.contains x) (fun x hx => by simpa using h x hx)⟩
   have fB := ncont B (A.length + 4) hkB
   have fO := ncont O (A.length + 4 + B.length) hkO
   have hBzk : (B.zipIdx (A.length + 4)).map (·.1) = B := List.zipIdx_map_fst _ _
@@ -902,16 +890,11 @@ theorem prSetup_header
     cases hB : B with
     | nil => exact absurd hB hbne
     | cons b t => simp [List.zipIdx_cons]
-  have hOBk : ((O.zipIdx (A.length + 4 + B.length)).filter (fun c => isBoundKey c.1)).map (·.1) = ks.flatMap boundTitles := by
-    rw [map_fst_filter_zipIdx, ← hfilt.1]
-  have hOVk : ((O.zipIdx (A.length + 4 + B.length)).filter (fun c => !isBoundKey c.1)).map (·.1) = ks := by
-    rw [map_fst_filter_zipIdx O _ (fun t => !isBoundKey t)]
-    exact hfilt.2
   have hBmem : ∀ c ∈ B.zipIdx (A.length + 4), c.1 ∈ B := fun c hc => List.fst_mem_of_mem_zipIdx hc
   have hOmem : ∀ c ∈ O.zipIdx (A.length + 4 + B.length), c.1 ∈ O := fun c hc => List.fst_mem_of_mem_zipIdx hc
   generalize hBz : B.zipIdx (A.length + 4) = Bz at *
   generalize hOz : O.zipIdx (A.length + 4 + B.length) = Oz at *
-  unfold prSetup
+  unfold setupCommon
   rw [hz]
   simp only [List.filter_append, (cont A 0 hA).1, (cont A 0 hA).2,
     (ncont fixedTitles A.length hkF).1, (ncont fixedTitles A.length hkF).2,
@@ -943,62 +926,99 @@ theorem prSetup_header
   rw [s3]; simp only []
   rw [s4]; simp only []
   -- the bin bounds
-  have hObins : ∀ c ∈ Oz, ((sBinsLB ++ ['.']).isPrefixOf c.1 = false) ∧ c.1 ≠ sBinsLB := by
-    intro c hc
-    obtain ⟨o, ho, hto⟩ := hmemO c.1 (hOmem c hc)
-    exact objTitle_not_bins (hobj o ho) hto
   obtain ⟨sel, hsel, hselr⟩ := selectScope_bins Bz Oz
-    (fun c hc => hbb c.1 (hBmem c hc)) hBzne hObins
+    (fun c hc => hbb c.1 (hBmem c hc)) hBzne (fun c hc => hObins c.1 (hOmem c hc))
     (fun c hc => by rw [hBzk]; exact fun hb => hBO c.1 hb (hOmem c hc))
   rw [hsel]; simp only []
   rw [hselr, sortPairs_of_sorted (by rw [hBzk]; exact hBsorted)]
-  -- the objective bounds
+
+theorem length_boundTitles (l : List Str) : (l.flatMap boundTitles).length = 2 * l.length := by
+  induction l with
+  | nil => rfl
+  | cons o t ih =>
+    simp only [List.flatMap_cons, List.length_append, ih, boundTitles, List.length_cons, List.length_nil]; omega
+
+/-- the objective-bound selection on a dictionary whose bound-titled columns are the bound titles of `ks` -/
+theorem setupBounds_of (Oz : Cols) (ks : List Str) (hone : ks ≠ [])
+    (hOBk : (Oz.filter (fun c => isBoundKey c.1)).map (·.1) = ks.flatMap boundTitles) :
+    setupBounds Oz = some (sortPairs (Oz.filter (fun c => isBoundKey c.1)), Oz.filter (fun c => !isBoundKey c.1)) := by
   have hOBne : Oz.filter (fun c => isBoundKey c.1) ≠ [] := by
     intro h
     rw [h] at hOBk
     cases hk : ks with
     | nil => exact hone hk
     | cons o t => rw [hk] at hOBk; simp [boundTitles] at hOBk
+  unfold setupBounds
   rw [selectScope_bounds Oz hOBne]; simp only []
   have hlenOB : (Oz.filter (fun c => isBoundKey c.1)).length = 2 * ks.length := by
     have := congrArg List.length hOBk
     rw [List.length_map] at this
-    rw [this]
-    have : ∀ l : List Str, (l.flatMap boundTitles).length = 2 * l.length := by
-      intro l
-      induction l with
-      | nil => rfl
-      | cons o t ih => simp only [List.flatMap_cons, List.length_append, ih, boundTitles, List.length_cons, List.length_nil]; omega
-    exact this ks
+    rw [this, length_boundTitles]
   rw [length_sortPairs, hlenOB]
   have : ¬ (2 * ks.length % 2 ≠ 0) := by omega
   rw [if_neg this]
-  have hnames : namesOfBounds (sortPairs (Oz.filter (fun c => isBoundKey c.1))) = ks := by
-    apply namesOfBounds_eq ks hKsorted hobj
-    intro t
-    rw [← hOBk]
-    constructor
-    · intro h
-      obtain ⟨q, hq, he⟩ := List.mem_map.mp h
-      exact List.mem_map.mpr ⟨q, mem_sortPairs.mp hq, he⟩
-    · intro h
-      obtain ⟨q, hq, he⟩ := List.mem_map.mp h
-      exact List.mem_map.mpr ⟨q, mem_sortPairs.mpr hq, he⟩
-  rw [hnames]
+
+theorem namesOfBounds_sorted (Oz : Cols) (ks : List Str) (hKsorted : ks.Pairwise (· < ·)) (hobj : ∀ o ∈ ks, ObjName o)
+    (hOBk : (Oz.filter (fun c => isBoundKey c.1)).map (·.1) = ks.flatMap boundTitles) :
+    namesOfBounds (sortPairs (Oz.filter (fun c => isBoundKey c.1))) = ks := by
+  apply namesOfBounds_eq ks hKsorted hobj
+  intro t
+  rw [← hOBk]
+  constructor
+  · intro h
+    obtain ⟨q, hq, he⟩ := List.mem_map.mp h
+    exact List.mem_map.mpr ⟨q, mem_sortPairs.mp hq, he⟩
+  · intro h
+    obtain ⟨q, hq, he⟩ := List.mem_map.mp h
+    exact List.mem_map.mpr ⟨q, mem_sortPairs.mpr hq, he⟩
+
+/-- `CsvReader.__init__` succeeds on the writer's header and finds every column where the writer put it -/
+theorem prSetup_header
+    (hn : (prHeader C rs).Nodup)
+    (hA : ∀ t ∈ C.titles (rs.map (·.er)), t ∈ C.keys)
+    (hdisj : ∀ k ∈ C.keys, k ∉ fixedTitles ++ bbKeys rs ++ (objKeys rs).flatMap objTitles)
+    (hbb : ∀ k ∈ bbKeys rs, BBKey k) (hbne : bbKeys rs ≠ [])
+    (hobj : ∀ o ∈ objKeys rs, ObjName o) (hone : objKeys rs ≠ []) :
+    prSetup C.keys (prHeader C rs).zipIdx = some (expReader C rs) := by
+  have hBsorted : (bbKeys rs).Pairwise (· < ·) := sorted_sortedSet _
+  have hKsorted : (objKeys rs).Pairwise (· < ·) := sorted_sortedSet _
+  have hcommon := setupCommon_header C.keys (C.titles (rs.map (·.er))) (bbKeys rs) ((objKeys rs).flatMap objTitles)
+    (by unfold prHeader at hn; exact hn) hA hdisj hbb hbne hBsorted (fun t ht => by
+      obtain ⟨o, ho, hto⟩ := List.mem_flatMap.mp ht
+      exact objTitle_not_bins (hobj o ho) hto)
+  unfold expReader
+  generalize hAdef : C.titles (rs.map (·.er)) = A at *
+  generalize hBdef : bbKeys rs = B at *
+  generalize hKdef : objKeys rs = ks at *
+  have hfilt := filter_bound_titles ks hobj
+  have hOBk : (((ks.flatMap objTitles).zipIdx (A.length + 4 + B.length)).filter (fun c => isBoundKey c.1)).map (·.1) = ks.flatMap boundTitles := by
+    rw [map_fst_filter_zipIdx, ← hfilt.1]
+  have hOVk : (((ks.flatMap objTitles).zipIdx (A.length + 4 + B.length)).filter (fun c => !isBoundKey c.1)).map (·.1) = ks := by
+    rw [map_fst_filter_zipIdx _ _ (fun t => !isBoundKey t)]
+    exact hfilt.2
+  generalize hOz : (ks.flatMap objTitles).zipIdx (A.length + 4 + B.length) = Oz at *
+  unfold prSetup prHeader
+  rw [hAdef, hBdef, hKdef, hcommon]; simp only []
+  rw [setupBounds_of Oz ks hone hOBk]; simp only []
+  rw [namesOfBounds_sorted Oz ks hKsorted hobj hOBk]
   have hcs := csvColumns_self (Oz.filter (fun c => !isBoundKey c.1)) (by rw [hOVk]; exact nodup_of_sorted hKsorted)
   rw [hOVk] at hcs
   rw [hcs]; simp only []
   have hlenOV : (Oz.filter (fun c => !isBoundKey c.1)).length = ks.length := by
     have := congrArg List.length hOVk
     rwa [List.length_map] at this
+  have hlenOB : (Oz.filter (fun c => isBoundKey c.1)).length = 2 * ks.length := by
+    have := congrArg List.length hOBk
+    rw [List.length_map] at this
+    rw [this, length_boundTitles]
   have hnonempty : (Oz.filter (fun c => !isBoundKey c.1)).isEmpty = false := by
     cases hq : Oz.filter (fun c => !isBoundKey c.1) with
     | nil => rw [hq] at hlenOV; cases hk : ks with
       | nil => exact absurd hk hone
       | cons o t => rw [hk] at hlenOV; simp at hlenOV
     | cons c l => rfl
-  rw [hnonempty, hlenOV]
-  simp only [Bool.false_or, ne_eq, not_true_eq_false, decide_false, Bool.false_eq_true, if_false]
+  rw [hnonempty, hlenOV, length_sortPairs, hlenOB]
+  simp only [Bool.false_or, ne_eq, not_true_eq_false, decide_false, Bool.false_eq_true, if_false, hOz]
 
 end setup
 end Csv
@@ -1331,4 +1351,864 @@ theorem prRead_prWrite (D : PRDomain C V rs) (t : Table) (hw : prWrite C rs = so
   · cases hw
 
 end final
+end Csv
+
+namespace Csv
+open Text
+
+/-! ### statistics: the per-objective scoped selection -/
+
+/-- the `(use_key, index)` pairs of the columns of `cols` in scope `sc` -/
+def selOf (sc : Str) (cols : Cols) : List (Str × Nat) :=
+  cols.filterMap (fun c => (scopeUse sc c.1).map (fun u => (u, c.2)))
+
+theorem selectScope_some (cols : Cols) (sc : Str) (hne : selOf sc cols ≠ []) :
+    csvSelectScope cols (some sc) (fun _ => false) =
+      some (selOf sc cols, cols.filter (fun c => (scopeUse sc c.1).isNone)) := by
+  unfold csvSelectScope
+  have hf : cols.filter (fun c => !(fun _ : Str => false) c.1) = cols := List.filter_eq_self.mpr (by simp)
+  simp only [hf]
+  have hmap : (cols.filterMap (fun c => (scopeUse sc c.1).map (fun u => (c.1, u, c.2)))).map (fun t => (t.2.1, t.2.2))
+      = selOf sc cols := by
+    unfold selOf
+    rw [List.map_filterMap]
+    congr 1
+    funext c
+    cases scopeUse sc c.1 <;> rfl
+  have hemp : (cols.filterMap (fun c => (scopeUse sc c.1).map (fun u => (c.1, u, c.2)))).isEmpty = false := by
+    cases hq : cols.filterMap (fun c => (scopeUse sc c.1).map (fun u => (c.1, u, c.2))) with
+    | nil => rw [hq] at hmap; exact absurd hmap.symm hne
+    | cons a l => rfl
+  simp only [hemp, Bool.false_eq_true, if_false, hmap, Option.some.injEq, Prod.mk.injEq, true_and]
+  apply List.filter_congr
+  intro c hc
+  have hkeys : ∀ k, k ∈ (cols.filterMap (fun c => (scopeUse sc c.1).map (fun u => (c.1, u, c.2)))).map (·.1) ↔
+      ∃ c' ∈ cols, c'.1 = k ∧ (scopeUse sc c'.1).isSome := by
+    intro k
+    simp only [List.mem_map, List.mem_filterMap, Option.map_eq_some_iff]
+    constructor
+    · rintro ⟨t, ⟨c', hc', u, hu, rfl⟩, rfl⟩
+      exact ⟨c', hc', rfl, by simp [hu]⟩
+    · rintro ⟨c', hc', rfl, hs⟩
+      obtain ⟨u, hu⟩ := Option.isSome_iff_exists.mp hs
+      exact ⟨(c'.1, u, c'.2), ⟨c', hc', u, hu, rfl⟩, rfl⟩
+  cases hs : scopeUse sc c.1 with
+  | none =>
+    have : ¬ c.1 ∈ (cols.filterMap (fun c => (scopeUse sc c.1).map (fun u => (c.1, u, c.2)))).map (·.1) := by
+      intro hm
+      obtain ⟨c', _, he, hs'⟩ := (hkeys c.1).mp hm
+      rw [he, hs] at hs'
+      cases hs'
+    simp [this]
+  | some u =>
+    have : c.1 ∈ (cols.filterMap (fun c => (scopeUse sc c.1).map (fun u => (c.1, u, c.2)))).map (·.1) :=
+      (hkeys c.1).mpr ⟨c, hc, rfl, by simp [hs]⟩
+    simp [this]
+
+end Csv
+
+namespace Csv
+open Text
+
+theorem filterMap_filter_of_imp {α β : Type} (l : List α) (p : α → Bool) (g : α → Option β)
+    (h : ∀ c ∈ l, (g c).isSome → p c = true) : (l.filter p).filterMap g = l.filterMap g := by
+  induction l with
+  | nil => rfl
+  | cons a l ih =>
+    have ih' := ih (fun c hc => h c (by simp [hc]))
+    simp only [List.filter_cons]
+    cases hp : p a with
+    | true => simp only [if_true, List.filterMap_cons, ih']
+    | false =>
+      have : g a = none := by
+        cases hg : g a with
+        | none => rfl
+        | some v => have := h a (by simp) (by simp [hg]); rw [hp] at this; cases this
+      simp [List.filterMap_cons, this, ih']
+
+theorem psSelectObjs_spec (idxN : Nat) (ks : List Str) (cols : Cols) (hnd : ks.Nodup)
+    (hne : ∀ o ∈ ks, selOf o cols ≠ [])
+    (hdisj : ∀ c ∈ cols, ∀ o ∈ ks, ∀ o' ∈ ks, (scopeUse o c.1).isSome → (scopeUse o' c.1).isSome → o = o')
+    (hN : ∀ o ∈ ks, kN ∉ (selOf o cols).map (·.1)) :
+    psSelectObjs idxN cols ks = some (ks.map (fun o => (o, selOf o cols ++ [(kN, idxN)]))) := by
+  induction ks generalizing cols with
+  | nil => rfl
+  | cons o os ih =>
+    simp only [List.nodup_cons] at hnd
+    simp only [psSelectObjs]
+    rw [selectScope_some cols o (hne o (by simp))]
+    simp only []
+    have hc : ((selOf o cols).map (·.1)).contains kN = false := by
+      have := hN o (by simp)
+      simpa [List.contains_iff_mem] using this
+    rw [hc]
+    simp only [Bool.false_eq_true, if_false, List.map_cons]
+    have hsame : ∀ o' ∈ os, selOf o' (cols.filter (fun c => (scopeUse o c.1).isNone)) = selOf o' cols := by
+      intro o' ho'
+      unfold selOf
+      apply filterMap_filter_of_imp
+      intro c hc hs
+      cases hq : scopeUse o c.1 with
+      | none => rfl
+      | some u =>
+        have hs' : (scopeUse o' c.1).isSome := by
+          cases hz : scopeUse o' c.1 with
+          | none => rw [hz] at hs; cases hs
+          | some v => rfl
+        have := hdisj c hc o (by simp) o' (by simp [ho']) (by simp [hq]) hs'
+        subst this
+        exact absurd ho' hnd.1
+    have ih' := ih (cols.filter (fun c => (scopeUse o c.1).isNone)) hnd.2
+      (fun o' ho' => by rw [hsame o' ho']; exact hne o' (by simp [ho']))
+      (fun c hc a ha b hb => hdisj c (List.mem_filter.mp hc).1 a (by simp [ha]) b (by simp [hb]))
+      (fun o' ho' => by rw [hsame o' ho']; exact hN o' (by simp [ho']))
+    rw [ih']
+    simp only [Option.map_some, Option.some.injEq, List.cons.injEq, true_and]
+    apply List.map_congr_left
+    intro o' ho'
+    rw [hsame o' ho']
+
+end Csv
+
+namespace Csv
+open Text
+
+/-! ### scopes of objective names -/
+
+theorem scopeUse_cases {o t : Str} (h : (scopeUse o t).isSome) : t = o ∨ ∃ x, t = o ++ '.' :: x := by
+  unfold scopeUse at h
+  split at h
+  · rename_i hp
+    rw [List.isPrefixOf_iff_prefix] at hp
+    obtain ⟨x, hx⟩ := hp
+    exact Or.inr ⟨x, by rw [← hx]; simp⟩
+  · split at h
+    · rename_i he; exact Or.inl he
+    · cases h
+
+theorem head_split_of_scope {o t : Str} (hdot : '.' ∉ o) (h : (scopeUse o t).isSome) :
+    (splitSep '.' t).head? = some o := by
+  rcases scopeUse_cases h with rfl | ⟨x, rfl⟩
+  · rw [splitSep_token '.' _ hdot]; rfl
+  · rw [splitSep_append '.' _ _ hdot]; rfl
+
+theorem scope_disjoint {o o' t : Str} (ho : ObjName o) (ho' : ObjName o')
+    (h : (scopeUse o t).isSome) (h' : (scopeUse o' t).isSome) : o = o' := by
+  have h1 := head_split_of_scope ho.2.1 h
+  have h2 := head_split_of_scope ho'.2.1 h'
+  rw [h1] at h2
+  exact Option.some.inj h2
+
+/-- a title in the scope of an objective name is not in the scope of the bin bounds -/
+theorem scope_not_bins {o t : Str} (ho : ObjName o) (h : (scopeUse o t).isSome) :
+    ((sBinsLB ++ ['.']).isPrefixOf t = false) ∧ t ≠ sBinsLB := by
+  have h1 := head_split_of_scope ho.2.1 h
+  have hdb : '.' ∉ sBins := by decide
+  constructor
+  · cases hp : (sBinsLB ++ ['.']).isPrefixOf t with
+    | false => rfl
+    | true =>
+      rw [List.isPrefixOf_iff_prefix] at hp
+      obtain ⟨rest, hr⟩ := hp
+      have : t = sBins ++ '.' :: (sLower ++ '.' :: rest) := by rw [← hr, sBinsLB_eq]; simp
+      rw [this, splitSep_append '.' _ _ hdb] at h1
+      exact absurd (Option.some.inj h1).symm ho.2.2.1
+  · intro he
+    rw [he, sBinsLB_eq, splitSep_append '.' _ _ hdb] at h1
+    exact absurd (Option.some.inj h1).symm ho.2.2.1
+
+theorem scopeUse_self_scope (o x : Str) : (scopeUse o (scopeKey o x)).isSome := by
+  unfold scopeUse scopeKey
+  have : (o ++ ['.']).isPrefixOf (o ++ '.' :: x) = true := by
+    rw [List.isPrefixOf_iff_prefix]; exact ⟨x, by simp⟩
+  simp [this]
+
+end Csv
+
+namespace Csv
+open Text
+
+/-! ### `packing_statistics.CsvReader.__init__` on a header of the writer's shape -/
+
+/-- the titles of one objective in the statistics table: lower bound, the columns of the embedded
+statistics writer, upper bound -/
+def statTitles (St : Str → List Str) (o : Str) : List Str := [scopeKey o sLower] ++ St o ++ [scopeKey o sUpper]
+
+theorem filter_stat_titles (St : Str → List Str) (ks : List Str)
+    (hnb : ∀ o ∈ ks, ∀ t ∈ St o, isBoundKey t = false) :
+    (ks.flatMap (statTitles St)).filter isBoundKey = ks.flatMap boundTitles ∧
+    (ks.flatMap (statTitles St)).filter (fun t => !isBoundKey t) = ks.flatMap St := by
+  induction ks with
+  | nil => exact ⟨rfl, rfl⟩
+  | cons o ks ih =>
+    obtain ⟨i1, i2⟩ := ih (fun x hx => hnb x (by simp [hx]))
+    have h1 : (St o).filter isBoundKey = [] :=
+      List.filter_eq_nil_iff.mpr (fun t ht => by simp [hnb o (by simp) t ht])
+    have h2 : (St o).filter (fun t => !isBoundKey t) = St o :=
+      List.filter_eq_self.mpr (fun t ht => by simp [hnb o (by simp) t ht])
+    simp only [List.flatMap_cons, List.filter_append, i1, i2, statTitles, h1, h2]
+    simp [boundTitles, List.filter_cons, isBoundKey_lower, isBoundKey_upper]
+
+/-- **layout of the statistics reader**: on a header `A ++ fixed ++ B ++ (per objective: lower bound, statistics
+columns, upper bound)` the reader's `__init__` takes the embedded columns, the four instance columns, the
+bin bounds, then the objective bounds, and only then, per objective name derived from the bounds, the remaining
+columns in that objective's scope (plus the `n` column of the end statistics) -/
+theorem psSetup_header (keys A B ks : List Str) (St : Str → List Str) (idxN : Nat)
+    (hn : (A ++ fixedTitles ++ B ++ ks.flatMap (statTitles St)).Nodup) (hA : ∀ t ∈ A, t ∈ keys)
+    (hdisj : ∀ k ∈ keys, k ∉ fixedTitles ++ B ++ ks.flatMap (statTitles St))
+    (hbb : ∀ k ∈ B, BBKey k) (hbne : B ≠ []) (hBsorted : B.Pairwise (· < ·))
+    (hKsorted : ks.Pairwise (· < ·)) (hobj : ∀ o ∈ ks, ObjName o) (hone : ks ≠ [])
+    (hscope : ∀ o ∈ ks, ∀ t ∈ St o, (scopeUse o t).isSome)
+    (hnb : ∀ o ∈ ks, ∀ t ∈ St o, isBoundKey t = false)
+    (hSne : ∀ o ∈ ks, St o ≠ [])
+    (hnoN : ∀ o ∈ ks, kN ∉ (St o).filterMap (scopeUse o))
+    (hidx : A.zipIdx.lookup kN = some idxN) :
+    psSetup keys (A ++ fixedTitles ++ B ++ ks.flatMap (statTitles St)).zipIdx =
+      some ⟨A.zipIdx, A.length + 2, A.length + 3, A.length + 1, A.length, B.zipIdx (A.length + 4),
+        sortPairs (((ks.flatMap (statTitles St)).zipIdx (A.length + 4 + B.length)).filter (fun c => isBoundKey c.1)),
+        ks.map (fun o => (o, selOf o (((ks.flatMap (statTitles St)).zipIdx (A.length + 4 + B.length)).filter
+          (fun c => !isBoundKey c.1)) ++ [(kN, idxN)]))⟩ := by
+  have hmemO : ∀ t ∈ ks.flatMap (statTitles St), ∃ o ∈ ks, t ∈ statTitles St o := fun t ht => List.mem_flatMap.mp ht
+  have hObins : ∀ t ∈ ks.flatMap (statTitles St), ((sBinsLB ++ ['.']).isPrefixOf t = false) ∧ t ≠ sBinsLB := by
+    intro t ht
+    obtain ⟨o, ho, hto⟩ := hmemO t ht
+    simp only [statTitles, List.mem_append, List.mem_cons, List.not_mem_nil, or_false] at hto
+    rcases hto with (rfl | hto) | rfl
+    · exact scope_not_bins (hobj o ho) (scopeUse_self_scope o sLower)
+    · exact scope_not_bins (hobj o ho) (hscope o ho t hto)
+    · exact scope_not_bins (hobj o ho) (scopeUse_self_scope o sUpper)
+  have hcommon := setupCommon_header keys A B (ks.flatMap (statTitles St)) hn hA hdisj hbb hbne hBsorted hObins
+  have hfilt := filter_stat_titles St ks hnb
+  have hOBk : (((ks.flatMap (statTitles St)).zipIdx (A.length + 4 + B.length)).filter (fun c => isBoundKey c.1)).map (·.1)
+      = ks.flatMap boundTitles := by
+    rw [map_fst_filter_zipIdx, ← hfilt.1]
+  have hNBk : (((ks.flatMap (statTitles St)).zipIdx (A.length + 4 + B.length)).filter (fun c => !isBoundKey c.1)).map (·.1)
+      = ks.flatMap St := by
+    rw [map_fst_filter_zipIdx _ _ (fun t => !isBoundKey t)]
+    exact hfilt.2
+  generalize hOz : (ks.flatMap (statTitles St)).zipIdx (A.length + 4 + B.length) = Oz at *
+  generalize hNB : Oz.filter (fun c => !isBoundKey c.1) = NB at *
+  have hNBscope : ∀ c ∈ NB, ∃ o ∈ ks, c.1 ∈ St o := by
+    intro c hc
+    have : c.1 ∈ ks.flatMap St := by rw [← hNBk]; exact List.mem_map.mpr ⟨c, hc, rfl⟩
+    exact List.mem_flatMap.mp this
+  -- keys of the selection of one objective
+  have hselkeys : ∀ o ∈ ks, ∀ u ∈ (selOf o NB).map (·.1), u ∈ (St o).filterMap (scopeUse o) := by
+    intro o ho u hu
+    obtain ⟨p, hp, rfl⟩ := List.mem_map.mp hu
+    unfold selOf at hp
+    obtain ⟨c, hc, hcu⟩ := List.mem_filterMap.mp hp
+    obtain ⟨v, hv, rfl⟩ := Option.map_eq_some_iff.mp hcu
+    obtain ⟨o', ho', hto'⟩ := hNBscope c hc
+    have : o = o' := scope_disjoint (hobj o ho) (hobj o' ho') (by simp [hv]) (hscope o' ho' c.1 hto')
+    subst this
+    exact List.mem_filterMap.mpr ⟨c.1, hto', hv⟩
+  have hselne : ∀ o ∈ ks, selOf o NB ≠ [] := by
+    intro o ho
+    cases hS : St o with
+    | nil => exact absurd hS (hSne o ho)
+    | cons t rest =>
+      have ht : t ∈ St o := by rw [hS]; simp
+      have : t ∈ NB.map (·.1) := by rw [hNBk]; exact List.mem_flatMap.mpr ⟨o, ho, ht⟩
+      obtain ⟨c, hc, rfl⟩ := List.mem_map.mp this
+      obtain ⟨u, hu⟩ := Option.isSome_iff_exists.mp (hscope o ho c.1 ht)
+      intro he
+      have : (u, c.2) ∈ selOf o NB := List.mem_filterMap.mpr ⟨c, hc, by simp [hu]⟩
+      rw [he] at this; cases this
+  unfold psSetup
+  rw [hcommon]; simp only [hidx]
+  rw [setupBounds_of Oz ks hone hOBk]; simp only [hNB]
+  rw [namesOfBounds_sorted Oz ks hKsorted hobj hOBk]
+  rw [psSelectObjs_spec idxN ks NB (nodup_of_sorted hKsorted) hselne
+    (fun c _ o ho o' ho' h h' => scope_disjoint (hobj o ho) (hobj o' ho') h h')
+    (fun o ho hm => hnoN o ho (hselkeys o ho kN hm))]
+  simp only []
+  have hlenOB : (Oz.filter (fun c => isBoundKey c.1)).length = 2 * ks.length := by
+    have := congrArg List.length hOBk
+    rw [List.length_map] at this
+    rw [this, length_boundTitles]
+  have hnonempty : (ks.map (fun o => (o, selOf o NB ++ [(kN, idxN)]))).isEmpty = false := by
+    cases hk : ks with
+    | nil => exact absurd hk hone
+    | cons o t => rfl
+  rw [hnonempty, List.length_map, length_sortPairs, hlenOB]
+  simp only [Bool.false_or, ne_eq, not_true_eq_false, decide_false, Bool.false_eq_true, if_false]
+
+end Csv
+
+namespace Csv
+open Text
+
+/-! ### statistics: header and rows of the writer -/
+
+theorem mapM_all_some {α β : Type} (l : List α) (f : α → Option β) (h : ∀ a ∈ l, (f a).isSome) :
+    l.mapM f = some (l.filterMap f) := by
+  induction l with
+  | nil => rfl
+  | cons a l ih =>
+    obtain ⟨b, hb⟩ := Option.isSome_iff_exists.mp (h a (by simp))
+    simp [List.mapM_cons, hb, ih (fun x hx => h x (by simp [hx])), List.filterMap_cons]
+
+theorem mapM_some_map {α β : Type} (l : List α) (f : α → Option β) (g : α → β)
+    (h : ∀ a ∈ l, f a = some (g a)) : l.mapM f = some (l.map g) := by
+  induction l with
+  | nil => rfl
+  | cons a l ih => simp [List.mapM_cons, h a (by simp), ih (fun x hx => h x (by simp [hx]))]
+
+theorem readMapStrict_eq_readMap (data : List Str) (L : List (Str × Nat))
+    (h : ∀ p ∈ L, ∃ c, data[p.2]? = some c ∧ c ≠ []) : readMapStrict data L = readMap data L := by
+  induction L with
+  | nil => rfl
+  | cons p L ih =>
+    cases p with
+    | mk k i =>
+      obtain ⟨c, hc, hne⟩ := h (k, i) (by simp)
+      simp only at hc
+      simp only [readMapStrict, readMap, hc, if_neg hne, ih (fun q hq => h q (by simp [hq]))]
+
+section stat
+variable {ES SS : Type} (C : Codec ES) (S : SsCodec SS) (V : EsView ES SS) (rs : List (PSRec ES SS))
+
+/-- every record has every objective of the table, with statistics from the objective's column -/
+theorem ps_lookup_obj (D : PSDomain C S V rs) {r : PSRec ES SS} (hr : r ∈ rs) {o : Str} (ho : o ∈ psObjKeys rs) :
+    ∃ s, r.objectives.lookup o = some s ∧ s ∈ psCol rs o ∧ (o, s) ∈ r.objectives := by
+  have : o ∈ r.objectives.map (·.1) := by rw [D.commonObj r hr]; exact ho
+  obtain ⟨p, hp, rfl⟩ := List.mem_map.mp this
+  have hl := lookup_of_mem (nodup_of_sorted (D.canon r hr).1) hp
+  exact ⟨p.2, hl, List.mem_filterMap.mpr ⟨r, hr, hl⟩, hp⟩
+
+theorem psColumn_eq (D : PSDomain C S V rs) {o : Str} (ho : o ∈ psObjKeys rs) :
+    psColumn rs o = some (psCol rs o) := by
+  unfold psColumn psCol
+  apply mapM_all_some
+  intro r hr
+  obtain ⟨s, hs, _⟩ := ps_lookup_obj C S V rs D hr ho
+  simp [hs]
+
+/-- the titles of the statistics columns of objective `o` in this table -/
+def psSt (o : Str) : List Str := S.titles o (psCol rs o)
+
+theorem psHeader_eq (D : PSDomain C S V rs) :
+    psHeader C S rs = some (C.titles (rs.map (·.es)) ++ fixedTitles ++ psBbKeys rs ++
+      (psObjKeys rs).flatMap (statTitles (psSt S rs))) := by
+  unfold psHeader
+  rw [mapM_some_map (psObjKeys rs) (psObjTitles S rs) (statTitles (psSt S rs)) (fun o ho => by
+    unfold psObjTitles
+    rw [psColumn_eq C S V rs D ho]
+    rfl)]
+  simp only [Option.map_some, List.flatMap_def]
+
+/-- the cells of the columns of objective `o` in the row of record `r` -/
+def psCells (r : PSRec ES SS) (o : Str) : List Str :=
+  match r.objectives.lookup o with
+  | some s => [cellOpt (r.objBounds.lookup (scopeKey o sLower))] ++ S.row o (psCol rs o) s ++
+      [cellOpt (r.objBounds.lookup (scopeKey o sUpper))]
+  | none => []
+
+theorem psRow_eq (D : PSDomain C S V rs) {r : PSRec ES SS} (hr : r ∈ rs) :
+    psRow C S rs r = some (C.row (rs.map (·.es)) r.es ++
+      [showInt r.binH, showInt r.binW, showInt r.nItems, showInt r.nDiff] ++
+      (psBbKeys rs).map (fun k => cellOpt (r.binBounds.lookup k)) ++
+      (psObjKeys rs).flatMap (psCells S rs r)) := by
+  unfold psRow
+  rw [mapM_some_map (psObjKeys rs) (psObjCells S rs r) (psCells S rs r) (fun o ho => by
+    obtain ⟨s, hs, _⟩ := ps_lookup_obj C S V rs D hr ho
+    unfold psObjCells psCells
+    rw [psColumn_eq C S V rs D ho, hs])]
+  simp only [Option.map_some, List.flatMap_def]
+
+theorem length_psCells (D : PSDomain C S V rs) {r : PSRec ES SS} (hr : r ∈ rs) {o : Str} (ho : o ∈ psObjKeys rs) :
+    (statTitles (psSt S rs) o).length = (psCells S rs r o).length := by
+  obtain ⟨s, hs, hcol, _⟩ := ps_lookup_obj C S V rs D hr ho
+  unfold psCells statTitles psSt
+  rw [hs]
+  simp only [List.length_append, (D.ss o ho).len s hcol, List.length_cons, List.length_nil]
+
+theorem length_flatMap_eq_of_mem {α : Type} (ks : List α) (T D : α → List Str)
+    (h : ∀ a ∈ ks, (T a).length = (D a).length) : (ks.flatMap T).length = (ks.flatMap D).length := by
+  induction ks with
+  | nil => rfl
+  | cons a ks ih =>
+    simp only [List.flatMap_cons, List.length_append, ih (fun x hx => h x (by simp [hx])), h a (by simp)]
+
+theorem zip_flatMap_of_mem {α : Type} (ks : List α) (T D : α → List Str)
+    (h : ∀ a ∈ ks, (T a).length = (D a).length) :
+    (ks.flatMap T).zip (ks.flatMap D) = ks.flatMap (fun a => (T a).zip (D a)) := by
+  induction ks with
+  | nil => rfl
+  | cons a ks ih =>
+    simp only [List.flatMap_cons, List.zip_append (h a (by simp)), ih (fun x hx => h x (by simp [hx]))]
+
+end stat
+end Csv
+
+namespace Csv
+open Text
+
+section statrow
+variable {ES SS : Type} (C : Codec ES) (S : SsCodec SS) (V : EsView ES SS) (rs : List (PSRec ES SS))
+
+theorem ps_ok_bounds {r : PSRec ES SS} (h : r.Ok V) {q : Str × SS} (hq : q ∈ r.objectives) :
+    (∃ lo, r.objBounds.lookup (scopeKey q.1 sLower) = some lo) ∧
+    (∃ hi, r.objBounds.lookup (scopeKey q.1 sUpper) = some hi) := by
+  unfold PSRec.Ok PSRec.okB at h
+  simp only [Bool.and_eq_true, List.all_eq_true] at h
+  have := h.1.1.1.1.1.1.1.1.1.2 q hq
+  split at this
+  · rename_i lo hi h1 h2; exact ⟨⟨lo, h1⟩, ⟨hi, h2⟩⟩
+  · cases this
+
+/-- the use-keys of the columns in scope `o` among the statistics columns of all objectives are those of `o`'s own -/
+theorem filterMap_scope_flatMap (St : Str → List Str) (ks : List Str) (hnd : ks.Nodup) (hobj : ∀ o ∈ ks, ObjName o)
+    (hscope : ∀ o ∈ ks, ∀ t ∈ St o, (scopeUse o t).isSome) {o : Str} (ho : o ∈ ks) :
+    (ks.flatMap St).filterMap (scopeUse o) = (St o).filterMap (scopeUse o) := by
+  induction ks with
+  | nil => cases ho
+  | cons a ks ih =>
+    simp only [List.nodup_cons] at hnd
+    simp only [List.flatMap_cons, List.filterMap_append]
+    have hother : ∀ b ∈ a :: ks, b ≠ o → (St b).filterMap (scopeUse o) = [] := by
+      intro b hb hne
+      apply filterMap_all_none
+      intro t ht
+      cases hq : scopeUse o t with
+      | none => rfl
+      | some u =>
+        exact absurd (scope_disjoint (hobj o ho) (hobj b hb) (by simp [hq]) (hscope b hb t ht)).symm hne
+    by_cases hao : a = o
+    · subst hao
+      have : (ks.flatMap St).filterMap (scopeUse a) = [] := by
+        rw [List.filterMap_flatMap]
+        apply List.flatMap_eq_nil_iff.mpr
+        intro b hb
+        exact hother b (by simp [hb]) (fun e => hnd.1 (e ▸ hb))
+      rw [this, List.append_nil]
+    · rcases List.mem_cons.mp ho with e | ho'
+      · exact absurd e.symm hao
+      · rw [hother a (by simp) hao, List.nil_append]
+        exact ih hnd.2 (fun x hx => hobj x (by simp [hx])) (fun x hx => hscope x (by simp [hx])) ho'
+
+theorem mem_zip_unique {l : List Str} (hn : l.Nodup) {l' : List Str} {t c d : Str}
+    (h1 : (t, c) ∈ l.zip l') (h2 : (t, d) ∈ l.zip l') : c = d := by
+  induction l generalizing l' with
+  | nil => simp at h1
+  | cons a l ih =>
+    cases l' with
+    | nil => simp at h1
+    | cons b l' =>
+      simp only [List.nodup_cons] at hn
+      simp only [List.zip_cons_cons, List.mem_cons, Prod.mk.injEq] at h1 h2
+      rcases h1 with ⟨e1, e2⟩ | h1 <;> rcases h2 with ⟨f1, f2⟩ | h2
+      · rw [e2, f2]
+      · exact absurd (e1 ▸ (List.of_mem_zip h2).1) hn.1
+      · exact absurd (f1 ▸ (List.of_mem_zip h1).1) hn.1
+      · exact ih hn.2 h1 h2
+
+end statrow
+end Csv
+
+namespace Csv
+open Text
+
+section statrow2
+variable {ES SS : Type} (C : Codec ES) (S : SsCodec SS) (V : EsView ES SS) (rs : List (PSRec ES SS))
+
+/-- the reader state that `packing_statistics.CsvReader.__init__` reaches on the writer's header -/
+def expReaderS (idxN : Nat) : PSReader :=
+  let A := C.titles (rs.map (·.es))
+  let B := psBbKeys rs
+  let ks := psObjKeys rs
+  let Oz := (ks.flatMap (statTitles (psSt S rs))).zipIdx (A.length + 4 + B.length)
+  ⟨A.zipIdx, A.length + 2, A.length + 3, A.length + 1, A.length, B.zipIdx (A.length + 4),
+    sortPairs (Oz.filter (fun c => isBoundKey c.1)),
+    ks.map (fun o => (o, selOf o (Oz.filter (fun c => !isBoundKey c.1)) ++ [(kN, idxN)]))⟩
+
+/-- `parse_row` (and the constructor) of the statistics reader on a row of the writer returns the record -/
+theorem psParseRow_row (D : PSDomain C S V rs) (idxN : Nat)
+    (hidx : (C.titles (rs.map (·.es))).zipIdx.lookup kN = some idxN)
+    (hStn : ∀ o ∈ psObjKeys rs, (psSt S rs o).Nodup)
+    {r : PSRec ES SS} (hr : r ∈ rs) (data : List Str) (hrow : psRow C S rs r = some data) :
+    psParseRow C S V (expReaderS C S rs idxN) data = some r := by
+  have hcanon := D.canon r hr
+  rw [psRow_eq C S V rs D hr] at hrow
+  have hdata := (Option.some.inj hrow).symm
+  clear hrow
+  -- names for the parts
+  generalize hAdef : C.titles (rs.map (·.es)) = A at *
+  generalize hRAdef : C.row (rs.map (·.es)) r.es = RA at *
+  have hlenA : RA.length = A.length := by
+    rw [← hAdef, ← hRAdef]; exact D.codec.len r.es (List.mem_map.mpr ⟨r, hr, rfl⟩)
+  have hAn : A.Nodup := hAdef ▸ D.codec.nodup
+  have hobjN := D.objName
+  have hbbeq := D.commonBB r hr
+  have hobjeq := D.commonObj r hr
+  have hss := D.ss
+  have hlk : ∀ o ∈ psObjKeys rs, ∃ s, r.objectives.lookup o = some s ∧ s ∈ psCol rs o ∧ (o, s) ∈ r.objectives :=
+    fun o ho => ps_lookup_obj C S V rs D hr ho
+  have hlenCells : ∀ o ∈ psObjKeys rs, (statTitles (psSt S rs) o).length = (psCells S rs r o).length :=
+    fun o ho => length_psCells C S V rs D hr ho
+  generalize hBdef : psBbKeys rs = B at *
+  generalize hKdef : psObjKeys rs = ks at *
+  have hBsorted : B.Pairwise (· < ·) := hBdef ▸ sorted_sortedSet _
+  have hKsorted : ks.Pairwise (· < ·) := hKdef ▸ sorted_sortedSet _
+  generalize hRFdef : [showInt r.binH, showInt r.binW, showInt r.nItems, showInt r.nDiff] = RF at *
+  have hlenF : RF.length = 4 := by rw [← hRFdef]; rfl
+  -- the embedded record
+  have her : C.read (erLookup A.zipIdx data) = some r.es := by
+    apply D.codec.back r.es (List.mem_map.mpr ⟨r, hr, rfl⟩)
+    · rw [hAdef, hRAdef]
+      intro p hp
+      obtain ⟨j, hj, hpj⟩ := List.getElem_of_mem hp
+      simp only [List.length_zip] at hj
+      have hjA : j < A.length := by omega
+      have hjR : j < RA.length := by omega
+      have hp1 : p = (A[j], RA[j]) := by rw [← hpj]; simp
+      rw [hp1]
+      simp only [erLookup, lookup_zipIdx A hAn j hjA, Option.bind_some]
+      rw [hdata, List.append_assoc, List.append_assoc, List.getElem?_append_left hjR, List.getElem?_eq_getElem hjR]
+    · rw [hAdef]
+      intro k _ hk
+      simp only [erLookup]
+      rw [lookup_eq_none_of_not_mem (by rw [List.zipIdx_map_fst]; exact hk)]
+      rfl
+  -- the four fixed cells
+  have hget : ∀ j (hj : j < 4), data[A.length + j]? = RF[j]? := by
+    intro j hj
+    rw [hdata, List.append_assoc, List.append_assoc, List.getElem?_append_right (by omega),
+      List.getElem?_append_left (by omega)]
+    congr 1; omega
+  have hiN : readInt data (A.length + 2) = some r.nItems := by
+    simp only [readInt, hget 2 (by omega), ← hRFdef]
+    simp [parseInt?_showInt]
+  have hiD : readInt data (A.length + 3) = some r.nDiff := by
+    simp only [readInt, hget 3 (by omega), ← hRFdef]
+    simp [parseInt?_showInt]
+  have hiW : readInt data (A.length + 1) = some r.binW := by
+    simp only [readInt, hget 1 (by omega), ← hRFdef]
+    simp [parseInt?_showInt]
+  have hiH : readInt data A.length = some r.binH := by
+    have := hget 0 (by omega)
+    simp only [Nat.add_zero] at this
+    simp only [readInt, this, ← hRFdef]
+    simp [parseInt?_showInt]
+  -- the bin bounds (every record has every bin bound of the table)
+  have hbbcell : ∀ p ∈ B.zipIdx (A.length + 4), data[p.2]? = some (cellOpt (r.binBounds.lookup p.1)) := by
+    intro p hp
+    have hpre : (RA ++ RF).length = A.length + 4 := by simp [hlenA, hlenF]
+    obtain ⟨d, hd, hz⟩ := get_part (RA ++ RF) B (B.map (fun k => cellOpt (r.binBounds.lookup k)))
+      (ks.flatMap (psCells S rs r)) (by simp) (k := p.1) (i := p.2) (by rw [hpre]; exact hp)
+    rw [hdata, hd]
+    have := zip_map_self B id (fun k => cellOpt (r.binBounds.lookup k))
+    simp only [List.map_id] at this
+    rw [this] at hz
+    obtain ⟨x, _, hx⟩ := List.mem_map.mp hz
+    simp only [id, Prod.mk.injEq] at hx
+    rw [← hx.2, hx.1]
+  have hbins : readMapStrict data (B.zipIdx (A.length + 4)) = some r.binBounds := by
+    rw [readMapStrict_eq_readMap]
+    · apply readMap_restrict _ _ _ hbbcell (by rw [List.zipIdx_map_fst]; exact hBsorted) hcanon.2.2
+        (fun p hp => by rw [List.zipIdx_map_fst, ← hbbeq]; exact List.mem_map.mpr ⟨p, hp, rfl⟩)
+    · intro p hp
+      refine ⟨_, hbbcell p hp, ?_⟩
+      have hpB : p.1 ∈ r.binBounds.map (·.1) := by rw [hbbeq]; exact List.fst_mem_of_mem_zipIdx hp
+      obtain ⟨q, hq, he⟩ := List.mem_map.mp hpB
+      have := lookup_of_mem (nodup_of_sorted hcanon.2.2) hq
+      rw [he] at this
+      rw [this]
+      exact cellOpt_ne_nil q.2
+  -- the objective columns
+  have hOcell : ∀ p ∈ (ks.flatMap (statTitles (psSt S rs))).zipIdx (A.length + 4 + B.length),
+      ∃ d o, data[p.2]? = some d ∧ o ∈ ks ∧ (p.1, d) ∈ (statTitles (psSt S rs) o).zip (psCells S rs r o) := by
+    intro p hp
+    have hpre : (RA ++ RF ++ B.map (fun k => cellOpt (r.binBounds.lookup k))).length = A.length + 4 + B.length := by
+      simp only [List.length_append, List.length_map, hlenA, hlenF]
+    obtain ⟨d, hd, hz⟩ := get_part (RA ++ RF ++ B.map (fun k => cellOpt (r.binBounds.lookup k)))
+      (ks.flatMap (statTitles (psSt S rs))) (ks.flatMap (psCells S rs r)) []
+      (length_flatMap_eq_of_mem ks _ _ hlenCells) (k := p.1) (i := p.2) (by rw [hpre]; exact hp)
+    rw [zip_flatMap_of_mem ks _ _ hlenCells] at hz
+    obtain ⟨o, ho, hzo⟩ := List.mem_flatMap.mp hz
+    refine ⟨d, o, ?_, ho, hzo⟩
+    rw [hdata, ← hd, List.append_nil]
+  -- shape of the zipped titles and cells of one objective
+  have hzipO : ∀ o ∈ ks, ∃ s, r.objectives.lookup o = some s ∧ s ∈ psCol rs o ∧ (o, s) ∈ r.objectives ∧
+      (statTitles (psSt S rs) o).zip (psCells S rs r o) =
+        [(scopeKey o sLower, cellOpt (r.objBounds.lookup (scopeKey o sLower)))] ++
+        (psSt S rs o).zip (S.row o (psCol rs o) s) ++
+        [(scopeKey o sUpper, cellOpt (r.objBounds.lookup (scopeKey o sUpper)))] := by
+    intro o ho
+    obtain ⟨s, hs, hcol, hmem⟩ := hlk o ho
+    refine ⟨s, hs, hcol, hmem, ?_⟩
+    unfold statTitles psCells
+    rw [hs]
+    have hl : (psSt S rs o).length = (S.row o (psCol rs o) s).length := ((hss o ho).len s hcol).symm
+    rw [List.zip_append (by simp [hl]), List.zip_append (by simp)]
+    rfl
+  have hbounds : readMapStrict data (sortPairs (((ks.flatMap (statTitles (psSt S rs))).zipIdx (A.length + 4 + B.length)).filter
+      (fun c => isBoundKey c.1))) = some r.objBounds := by
+    have hkeys : ((((ks.flatMap (statTitles (psSt S rs))).zipIdx (A.length + 4 + B.length)).filter
+        (fun c => isBoundKey c.1)).map (·.1)) = ks.flatMap boundTitles := by
+      rw [map_fst_filter_zipIdx, (filter_stat_titles (psSt S rs) ks (fun o ho => (hss o ho).noBound)).1]
+    have hcell : ∀ p ∈ sortPairs (((ks.flatMap (statTitles (psSt S rs))).zipIdx (A.length + 4 + B.length)).filter
+        (fun c => isBoundKey c.1)), data[p.2]? = some (cellOpt (r.objBounds.lookup p.1)) ∧
+        (r.objBounds.lookup p.1).isSome := by
+      intro p hp
+      have hp' := List.mem_filter.mp (mem_sortPairs.mp hp)
+      obtain ⟨d, o, hd, ho, hz⟩ := hOcell p hp'.1
+      obtain ⟨s, hs, hcol, hmem, hzip⟩ := hzipO o ho
+      have hb : isBoundKey p.1 = true := hp'.2
+      have hokb := ps_ok_bounds V (D.ok r hr) hmem
+      rw [hzip] at hz
+      rw [hd]
+      simp only [List.mem_append, List.mem_cons, Prod.mk.injEq, List.not_mem_nil, or_false] at hz
+      rcases hz with (⟨h1, h2⟩ | hz) | ⟨h1, h2⟩
+      · rw [h2, h1]; obtain ⟨lo, hlo⟩ := hokb.1; exact ⟨rfl, by simp [hlo]⟩
+      · have := (hss o ho).noBound p.1 (List.of_mem_zip hz).1
+        rw [this] at hb; cases hb
+      · rw [h2, h1]; obtain ⟨hi, hhi⟩ := hokb.2; exact ⟨rfl, by simp [hhi]⟩
+    rw [readMapStrict_eq_readMap]
+    · apply readMap_restrict _ _ _ (fun p hp => (hcell p hp).1) _ hcanon.2.1
+      · intro p hp
+        obtain ⟨q, hq, hor⟩ := D.bounds r hr p hp
+        have hqk : q.1 ∈ ks := by rw [← hobjeq]; exact List.mem_map.mpr ⟨q, hq, rfl⟩
+        have : p.1 ∈ ks.flatMap boundTitles := by
+          apply List.mem_flatMap.mpr
+          refine ⟨q.1, hqk, ?_⟩
+          simp only [boundTitles, List.mem_cons, List.not_mem_nil, or_false]
+          exact hor
+        rw [← hkeys] at this
+        obtain ⟨c, hc, he⟩ := List.mem_map.mp this
+        exact List.mem_map.mpr ⟨c, mem_sortPairs.mpr hc, he⟩
+      · apply sorted_sortPairs
+        rw [hkeys]
+        exact nodup_boundTitles ks (nodup_of_sorted hKsorted) hobjN
+    · intro p hp
+      obtain ⟨h1, h2⟩ := hcell p hp
+      obtain ⟨v, hv⟩ := Option.isSome_iff_exists.mp h2
+      exact ⟨_, h1, by rw [hv]; exact cellOpt_ne_nil v⟩
+  -- the statistics of every objective
+  generalize hNBdef : ((ks.flatMap (statTitles (psSt S rs))).zipIdx (A.length + 4 + B.length)).filter
+      (fun c => !isBoundKey c.1) = NB at *
+  have hNBk : NB.map (·.1) = ks.flatMap (psSt S rs) := by
+    rw [← hNBdef, map_fst_filter_zipIdx _ _ (fun t => !isBoundKey t)]
+    exact (filter_stat_titles (psSt S rs) ks (fun o ho => (hss o ho).noBound)).2
+  have hselkeys : ∀ o ∈ ks, (selOf o NB).map (·.1) = (psSt S rs o).filterMap (scopeUse o) := by
+    intro o ho
+    have : (selOf o NB).map (·.1) = (NB.map (·.1)).filterMap (scopeUse o) := by
+      unfold selOf
+      rw [List.map_filterMap, List.filterMap_map]
+      congr 1
+      funext c
+      simp only [Function.comp]
+      cases scopeUse o c.1 <;> rfl
+    rw [this, hNBk]
+    exact filterMap_scope_flatMap (psSt S rs) ks (nodup_of_sorted hKsorted) hobjN (fun o ho => (hss o ho).scope) ho
+  have hread : ∀ o ∈ ks, ∃ s, r.objectives.lookup o = some s ∧
+      S.read o (erLookup (selOf o NB ++ [(kN, idxN)]) data) = some s := by
+    intro o ho
+    obtain ⟨s, hs, hcol, hmem, hzip⟩ := hzipO o ho
+    refine ⟨s, hs, ?_⟩
+    have hR := hss o ho
+    have hkn : (selOf o NB).lookup kN = none := by
+      apply lookup_eq_none_of_not_mem
+      rw [hselkeys o ho]; exact hR.noN
+    apply hR.back s hcol
+    · -- the writer's cells under the use-keys
+      intro p hp
+      have ht : p.1 ∈ psSt S rs o := (List.of_mem_zip hp).1
+      obtain ⟨u, hu⟩ := Option.isSome_iff_exists.mp (hR.scope p.1 ht)
+      refine ⟨u, hu, ?_⟩
+      have hmemNB : p.1 ∈ NB.map (·.1) := by rw [hNBk]; exact List.mem_flatMap.mpr ⟨o, ho, ht⟩
+      obtain ⟨c, hc, hce⟩ := List.mem_map.mp hmemNB
+      have hsel : (u, c.2) ∈ selOf o NB := List.mem_filterMap.mpr ⟨c, hc, by rw [hce, hu]; rfl⟩
+      have hlook : (selOf o NB ++ [(kN, idxN)]).lookup u = some c.2 := by
+        rw [List.lookup_append,
+          lookup_of_mem (m := selOf o NB) (by rw [hselkeys o ho]; exact hR.useNodup) hsel]
+        rfl
+      simp only [erLookup, hlook, Option.bind_some]
+      have hcOz : c ∈ (ks.flatMap (statTitles (psSt S rs))).zipIdx (A.length + 4 + B.length) := by
+        rw [← hNBdef] at hc; exact (List.mem_filter.mp hc).1
+      obtain ⟨d, o', hd, ho', hz⟩ := hOcell c hcOz
+      rw [hd]
+      -- the column belongs to objective `o`
+      obtain ⟨s', hs', _, _, hzip'⟩ := hzipO o' ho'
+      rw [hzip', hce] at hz
+      have hoo : o' = o := by
+        simp only [List.mem_append, List.mem_cons, Prod.mk.injEq, List.not_mem_nil, or_false] at hz
+        rcases hz with (⟨h1, _⟩ | hz) | ⟨h1, _⟩
+        · have := hR.noBound p.1 ht; rw [h1, isBoundKey_lower] at this; cases this
+        · exact scope_disjoint (hobjN o' ho') (hobjN o ho) ((hss o' ho').scope p.1 (List.of_mem_zip hz).1)
+            (hR.scope p.1 ht)
+        · have := hR.noBound p.1 ht; rw [h1, isBoundKey_upper] at this; cases this
+      subst hoo
+      rw [hs] at hs'
+      cases hs'
+      simp only [List.mem_append, List.mem_cons, Prod.mk.injEq, List.not_mem_nil, or_false] at hz
+      rcases hz with (⟨h1, _⟩ | hz) | ⟨h1, _⟩
+      · have := hR.noBound p.1 ht; rw [h1, isBoundKey_lower] at this; cases this
+      · congr 1
+        exact mem_zip_unique (hStn o' (hKdef ▸ ho)) hz (by cases p; exact hp)
+      · have := hR.noBound p.1 ht; rw [h1, isBoundKey_upper] at this; cases this
+    · -- the `n` of the end statistics
+      have hlook : (selOf o NB ++ [(kN, idxN)]).lookup kN = some idxN := by
+        rw [List.lookup_append, hkn]; simp
+      simp only [erLookup, hlook, Option.bind_some]
+      have hmemA := mem_of_lookup hidx
+      obtain ⟨hi, hk⟩ := List.mem_zipIdx' hmemA
+      have hiR : idxN < RA.length := by omega
+      rw [hdata, List.append_assoc, List.append_assoc, List.getElem?_append_left hiR]
+      have := D.nCell r hr (o, s) hmem
+      rw [hAdef, hRAdef] at this
+      rw [← this, getElem?_eq_cellAt hAn hi hlenA, ← hk]
+      rfl
+    · intro u hune hnot
+      simp only [erLookup]
+      rw [List.lookup_append, lookup_eq_none_of_not_mem (by rw [hselkeys o ho]; exact hnot)]
+      have : (u == kN) = false := by simpa using hune
+      simp [List.lookup_cons, this]
+  have hobjs : (ks.map (fun o => (o, selOf o NB ++ [(kN, idxN)]))).mapM
+      (fun o => (S.read o.1 (erLookup o.2 data)).map (fun s => (o.1, s))) = some r.objectives := by
+    rw [List.mapM_map]
+    have hall : ∀ o ∈ ks, ((fun o : Str × List (Str × Nat) => (S.read o.1 (erLookup o.2 data)).map (fun s => (o.1, s))) ∘
+        (fun o => (o, selOf o NB ++ [(kN, idxN)]))) o = (r.objectives.lookup o).map (fun v => (o, v)) := by
+      intro o ho
+      obtain ⟨s, hs, hrd⟩ := hread o ho
+      simp only [Function.comp, hrd, hs, Option.map_some]
+    rw [mapM_all_some ks _ (fun o ho => by rw [hall o ho]; obtain ⟨s, hs, _⟩ := hread o ho; simp [hs])]
+    congr 1
+    have : ks.filterMap ((fun o : Str × List (Str × Nat) => (S.read o.1 (erLookup o.2 data)).map (fun s => (o.1, s))) ∘
+        (fun o => (o, selOf o NB ++ [(kN, idxN)]))) = ks.filterMap (fun o => (r.objectives.lookup o).map (fun v => (o, v))) := by
+      have : ∀ l : List Str, (∀ o ∈ l, o ∈ ks) → l.filterMap ((fun o : Str × List (Str × Nat) =>
+          (S.read o.1 (erLookup o.2 data)).map (fun s => (o.1, s))) ∘ (fun o => (o, selOf o NB ++ [(kN, idxN)]))) =
+          l.filterMap (fun o => (r.objectives.lookup o).map (fun v => (o, v))) := by
+        intro l hl
+        induction l with
+        | nil => rfl
+        | cons a t iht =>
+          simp only [List.filterMap_cons, hall a (hl a (by simp))]
+          rw [iht (fun o ho => hl o (by simp [ho]))]
+      exact this ks (fun o ho => ho)
+    rw [this]
+    exact restrict_eq ks r.objectives hKsorted hcanon.1 (fun p hp => by
+      rw [← hobjeq]; exact List.mem_map.mpr ⟨p, hp, rfl⟩)
+  unfold psParseRow expReaderS
+  simp only [hAdef, hBdef, hKdef, hNBdef, her, hiN, hiD, hiW, hiH, hbins, hbounds, hobjs]
+  unfold mkPSRec
+  have hok := D.ok r hr
+  cases r
+  simp only at hok ⊢
+  rw [if_pos hok]
+
+end statrow2
+end Csv
+
+namespace Csv
+open Text
+
+section statfinal
+variable {ES SS : Type} (C : Codec ES) (S : SsCodec SS) (V : EsView ES SS) (rs : List (PSRec ES SS))
+
+theorem nodup_of_flatMap {α : Type} (ks : List α) (T : α → List Str) (h : (ks.flatMap T).Nodup) :
+    ∀ a ∈ ks, (T a).Nodup := by
+  induction ks with
+  | nil => intro a ha; cases ha
+  | cons b ks ih =>
+    simp only [List.flatMap_cons] at h
+    have h' := List.nodup_append.mp h
+    intro a ha
+    rcases List.mem_cons.mp ha with rfl | ha
+    · exact h'.1
+    · exact ih h'.2.1 a ha
+
+theorem ps_objectives_ne_nil {r : PSRec ES SS} (h : r.Ok V) : r.objectives ≠ [] := by
+  intro he
+  unfold PSRec.Ok PSRec.okB at h
+  rw [he] at h
+  simp at h
+
+/-- reading back what the statistics writer wrote -/
+theorem psRead_psWrite (D : PSDomain C S V rs) (t : Table) (hw : psWrite C S rs = some t) :
+    psRead C S V t = some rs := by
+  have hhdr := psHeader_eq C S V rs D
+  have hrows : rs.mapM (psRow C S rs) = some (rs.map (fun r =>
+      C.row (rs.map (·.es)) r.es ++ [showInt r.binH, showInt r.binW, showInt r.nItems, showInt r.nDiff] ++
+      (psBbKeys rs).map (fun k => cellOpt (r.binBounds.lookup k)) ++ (psObjKeys rs).flatMap (psCells S rs r))) := by
+    have : ∀ l : List (PSRec ES SS), (∀ r ∈ l, r ∈ rs) → l.mapM (psRow C S rs) = some (l.map (fun r =>
+        C.row (rs.map (·.es)) r.es ++ [showInt r.binH, showInt r.binW, showInt r.nItems, showInt r.nDiff] ++
+        (psBbKeys rs).map (fun k => cellOpt (r.binBounds.lookup k)) ++ (psObjKeys rs).flatMap (psCells S rs r))) := by
+      intro l hl
+      exact mapM_some_map l _ _ (fun r hr => psRow_eq C S V rs D (hl r hr))
+    exact this rs (fun r hr => hr)
+  unfold psWrite at hw
+  rw [hhdr, hrows] at hw
+  simp only at hw
+  split at hw
+  · rename_i hcond
+    cases hw
+    simp only [Bool.and_eq_true] at hcond
+    obtain ⟨cols, hc⟩ := Option.isSome_iff_exists.mp hcond.1
+    have hnodup : (C.titles (rs.map (·.es)) ++ fixedTitles ++ psBbKeys rs ++
+        (psObjKeys rs).flatMap (statTitles (psSt S rs))).Nodup ∧
+        cols = (C.titles (rs.map (·.es)) ++ fixedTitles ++ psBbKeys rs ++
+        (psObjKeys rs).flatMap (statTitles (psSt S rs))).zipIdx := by
+      unfold colsOf at hc
+      split at hc
+      · cases hc
+      · rename_i hcnd
+        simp only [Bool.or_eq_true, Bool.not_eq_true', decide_eq_false_iff_not, not_or] at hcnd
+        cases hc
+        exact ⟨Classical.not_not.mp hcnd.2, rfl⟩
+    -- a record, one of its objectives, and the `n` column
+    have hrsne : rs ≠ [] := by
+      intro he
+      have := D.bbSome
+      rw [he] at this
+      exact this rfl
+    obtain ⟨r0, hr0⟩ := List.exists_mem_of_ne_nil rs hrsne
+    have hobj0 := ps_objectives_ne_nil V (D.ok r0 hr0)
+    obtain ⟨p0, hp0⟩ := List.exists_mem_of_ne_nil _ hobj0
+    have hone : psObjKeys rs ≠ [] := by
+      intro he
+      have : p0.1 ∈ psObjKeys rs := by
+        rw [← D.commonObj r0 hr0]; exact List.mem_map.mpr ⟨p0, hp0, rfl⟩
+      rw [he] at this; cases this
+    have hNmem : kN ∈ C.titles (rs.map (·.es)) := by
+      have := mem_of_lookup (D.nCell r0 hr0 p0 hp0)
+      exact (List.of_mem_zip this).1
+    obtain ⟨idxN, hidx⟩ : ∃ i, (C.titles (rs.map (·.es))).zipIdx.lookup kN = some i := by
+      cases hq : (C.titles (rs.map (·.es))).zipIdx.lookup kN with
+      | some i => exact ⟨i, rfl⟩
+      | none =>
+        rw [List.lookup_eq_none_iff] at hq
+        obtain ⟨j, hj, he⟩ := List.getElem_of_mem hNmem
+        have := hq (kN, j) (List.mem_zipIdx_iff_getElem?.mpr (by simp [hj, he]))
+        simp at this
+    have hss := D.ss
+    have hsetup := psSetup_header C.keys (C.titles (rs.map (·.es))) (psBbKeys rs) (psObjKeys rs) (psSt S rs) idxN
+      hnodup.1 D.codec.sub D.keysDisj D.bbKey D.bbSome (sorted_sortedSet _) (sorted_sortedSet _) D.objName hone
+      (fun o ho => (hss o ho).scope) (fun o ho => (hss o ho).noBound) (fun o ho => (hss o ho).ne)
+      (fun o ho => (hss o ho).noN) hidx
+    have hStn : ∀ o ∈ psObjKeys rs, (psSt S rs o).Nodup := by
+      intro o ho
+      have h1 := (List.nodup_append.mp hnodup.1).2.1
+      have h2 := nodup_of_flatMap (psObjKeys rs) (statTitles (psSt S rs)) h1 o ho
+      unfold statTitles at h2
+      exact (List.nodup_append.mp (List.nodup_append.mp h2).1).2.1
+    unfold psRead
+    simp only [hc, hnodup.2, hsetup]
+    rw [List.map_map]
+    apply mapM_map_some
+    intro r hr
+    have hlen : (C.row (rs.map (·.es)) r.es ++ [showInt r.binH, showInt r.binW, showInt r.nItems, showInt r.nDiff] ++
+        (psBbKeys rs).map (fun k => cellOpt (r.binBounds.lookup k)) ++ (psObjKeys rs).flatMap (psCells S rs r)).length =
+        (C.titles (rs.map (·.es)) ++ fixedTitles ++ psBbKeys rs ++
+        (psObjKeys rs).flatMap (statTitles (psSt S rs))).length := by
+      have h1 := D.codec.len r.es (List.mem_map.mpr ⟨r, hr, rfl⟩)
+      have h2 := length_flatMap_eq_of_mem (psObjKeys rs) _ _ (fun o ho => length_psCells C S V rs D hr ho)
+      simp only [List.length_append, h1, List.length_map, h2, fixedTitles, List.length_cons, List.length_nil]
+    simp only [Function.comp]
+    rw [padRow_trimRow _ _ hlen]
+    exact psParseRow_row C S V rs D idxN hidx hStn hr _ (psRow_eq C S V rs D hr)
+  · cases hw
+
+end statfinal
 end Csv
